@@ -142,6 +142,9 @@ func TestVerifC05PublicAPI(t *testing.T) {
 			if _, ok := pv.(vhook.BudgetExceeded); ok {
 				what = "unbounded loop (step or system-call budget exceeded)"
 			}
+			if _, ok := pv.(vhook.Deadlock); ok {
+				what = "deadlock (the call would never return)"
+			}
 			t.Fatalf("%s: %s in the counter API: %v\n%s", desc, what, pv, stack)
 		}
 		// accounting: persisted (over all counter files of the directory) + pending never exceeds what was begun,
